@@ -1350,9 +1350,16 @@ fn main() {
     let exec = |case: &Case| -> Exec {
         let mut ex = Exec::new();
         let t0 = std::time::Instant::now();
-        let a = run_compio(&rt_iour, &d_iour, &case.lines);
+        let guarded = |rt: &Runtime, dir: &Path, drv: &str, ex: &mut Exec| match catch(|| run_compio(rt, dir, &case.lines)) {
+            Ok(v) => v,
+            Err(msg) => {
+                ex.fail("C08:panic", format!("driver={drv}: panic while running the case: {msg}"));
+                case.lines.iter().map(|_| obs("panic")).collect()
+            }
+        };
+        let a = guarded(&rt_iour, &d_iour, "io_uring", &mut ex);
         let t1 = std::time::Instant::now();
-        let b = run_compio(&rt_poll, &d_poll, &case.lines);
+        let b = guarded(&rt_poll, &d_poll, "polling", &mut ex);
         let t2 = std::time::Instant::now();
         let o = run_os(&d_os, &case.lines);
         let t3 = std::time::Instant::now();
